@@ -13,7 +13,8 @@ C08 — executable model of risor's host/script value boundary
 * `getAttr`/`setAttr`/`callEcho`   `Proxy.GetAttr`, `Proxy.SetAttr`, `Proxy.call`
 * `repr` and the `spec…` functions   the Spec: what the property demands
 
-The model is of the code AS IT IS (defects included).  Float conversions are a parameter
+The model is of the code AS IT IS (defects included; seven of them were repaired in risor since and
+the model follows the repaired code — the `preFix…` definitions keep what it did before).  Float conversions are a parameter
 (`FOps`); the oracle instantiates them with the hardware operations, the theorems are stated for
 every `FOps`.  Nil and empty slices / maps are identified (`seq .nil`, `map [] .nil`).
 Core Lean only.
@@ -259,7 +260,7 @@ def floatVals : List Nat → Vals
 def two63 : Int := 9223372036854775808
 def two64 : Int := 18446744073709551616
 
-/-- `int64(u)` for an unsigned 64-bit value: wraps at 2^63 -/
+/-- `int64(u)` for an unsigned 64-bit value: wraps at 2^63 (only the pre-fix `From` did this) -/
 def wrap64 (i : Int) : Int := if i ≥ two63 then i - two64 else i
 
 /-- conversion to an unsigned integer of `n` bits -/
@@ -275,12 +276,14 @@ def inRangeU (n : Nat) (i : Int) : Bool := decide (0 ≤ i ∧ i < (2 ^ n : Int)
 
 /-! ### Go → script : `TypeConverter.From` -/
 
-/-- the kind converters' `From` on a value whose dynamic type is the unnamed type itself -/
+/-- the kind converters' `From` on a value whose dynamic type is the unnamed type itself.
+    An unsigned value ≥ 2⁶³ has no image in the script's int (an int64): `UintConverter.From` /
+    `Uint64Converter.From` reject it with an error (repaired: they used to wrap, `preFixScalarFrom`). -/
 def scalarFrom (F : FOps) (ty : GoTy) (v : GoVal) : Outcome Obj :=
   match ty, v with
   | .bool, .bool b => .ok (.bool b)
   | .int _, .int i => .ok (.int i)
-  | .uint _, .int i => .ok (.int (wrap64 i))
+  | .uint _, .int i => if i ≥ two63 then .error else .ok (.int i)
   | .f32, .float b => .ok (.float (F.widen b))
   | .f64, .float b => .ok (.float b)
   | .str, .str s => .ok (.str s)
@@ -296,13 +299,21 @@ def timeFrom (v : GoVal) : Outcome Obj :=
   | .time t => .ok (.time t)
   | _ => .error
 
+/-- pre-fix `From` of a kind converter (historical): `obj.(int64)` etc. panics unless the dynamic
+    type is the unnamed type itself -/
+def preFixFromLeafScalar (F : FOps) (ty : GoTy) (v : GoVal) : Outcome Obj :=
+  if ty ≠ under ty then .panic else scalarFrom F ty v
+
 /-- scalars, time and struct values: the non-recursive converters -/
 def fromLeaf (F : FOps) (m : Mode) (ty : GoTy) (v : GoVal) : Outcome Obj :=
   match sel m ty with
   | .byte => byteFrom v
   | .scalar =>
-    -- `obj.(int64)` etc.: the dynamic type must be the unnamed type itself
-    if ty ≠ under ty then .panic else scalarFrom F ty v
+    -- a declared type of a basic kind (time.Duration, `type MyInt int`) goes through
+    -- `namedConverter`: the value is converted to the basic type, then `obj.(int64)` etc. holds
+    -- (repaired: the kind converter used to get the declared type and its assertion panicked,
+    -- `preFixFromLeafScalar`)
+    scalarFrom F (under ty) v
   | .time => timeFrom v
   | .structV => .ok (.proxy (.ptr ty) (.ptr v))   -- NewProxy copies a struct value behind a pointer
   | _ => .error
@@ -409,36 +420,54 @@ def liftPtr (k : Nat) (o : Obj) (r : Outcome Dyn) : Outcome Dyn :=
 
 def baseMode (m : Mode) (k : Nat) : Mode := if k = 0 then m else .create
 
+/-- the kind converters' `To`.  An integer object (`*Int`, `*Byte`) that the target integer type
+    cannot represent is rejected with an error (`narrowInt`; repaired: the conversion used to wrap,
+    `preFixScalarTo`).  A `*Float` object is still converted with a plain Go conversion
+    (truncation toward zero, then wrap-around).  The value has the slot's own type `b`, also when
+    that is a declared type (`namedConverter.To` converts to it; repaired, `preFixNamedTo`). -/
 def scalarTo (F : FOps) (b : GoTy) (o : Obj) : Outcome Dyn :=
   match under b with
   | .bool => match o with
-    | .bool x => .ok (some (.bool, .bool x))
+    | .bool x => .ok (some (b, .bool x))
     | _ => .error
   | .int w => match o with
-    | .int i => .ok (some (.int w, .int (wrapS w.bits i)))
-    | .byte n => .ok (some (.int w, .int (wrapS w.bits n)))
-    | .float f => .ok (some (.int w, .int (wrapS w.bits (F.trunc f))))
+    | .int i => if inRangeS w.bits i then .ok (some (b, .int i)) else .error
+    | .byte n => if inRangeS w.bits n then .ok (some (b, .int n)) else .error
+    | .float f => .ok (some (b, .int (wrapS w.bits (F.trunc f))))
     | _ => .error
   | .uint w => match o with
-    | .int i => .ok (some (.uint w, .int (wrapU w.bits i)))
-    | .byte n => .ok (some (.uint w, .int (wrapU w.bits n)))
-    | .float f => .ok (some (.uint w, .int (wrapU w.bits (F.trunc f))))
+    | .int i => if inRangeU w.bits i then .ok (some (b, .int i)) else .error
+    | .byte n => if inRangeU w.bits n then .ok (some (b, .int n)) else .error
+    | .float f => .ok (some (b, .int (wrapU w.bits (F.trunc f))))
     | _ => .error
   | .f32 => match o with
-    | .int i => .ok (some (.f32, .float (F.ofInt32 i)))
-    | .byte n => .ok (some (.f32, .float (F.ofInt32 n)))
-    | .float f => .ok (some (.f32, .float (F.narrow f)))
+    | .int i => .ok (some (b, .float (F.ofInt32 i)))
+    | .byte n => .ok (some (b, .float (F.ofInt32 n)))
+    | .float f => .ok (some (b, .float (F.narrow f)))
     | _ => .error
   | .f64 => match o with
-    | .int i => .ok (some (.f64, .float (F.ofInt i)))
-    | .byte n => .ok (some (.f64, .float (F.ofInt n)))
-    | .float f => .ok (some (.f64, .float f))
+    | .int i => .ok (some (b, .float (F.ofInt i)))
+    | .byte n => .ok (some (b, .float (F.ofInt n)))
+    | .float f => .ok (some (b, .float f))
     | _ => .error
   | .str => match o with
-    | .str s => .ok (some (.str, .str s))
-    | .bytes s => .ok (some (.str, .str s))
+    | .str s => .ok (some (b, .str s))
+    | .bytes s => .ok (some (b, .str s))
     | _ => .error
   | _ => .error
+
+/-- pre-fix `To` of a kind converter for a declared type (historical): the value it returned had
+    the UNNAMED type of the kind, which reflect.Set / Append / Call refuse for a declared slot -/
+def preFixNamedTo (F : FOps) (b : GoTy) (o : Obj) : Outcome Dyn := scalarTo F (under b) o
+
+/-- pre-fix `To` of the integer kind converters (historical): plain Go conversions, which wrap -/
+def preFixScalarTo (F : FOps) (b : GoTy) (o : Obj) : Outcome Dyn :=
+  match under b, o with
+  | .int w, .int i => .ok (some (b, .int (wrapS w.bits i)))
+  | .int w, .byte n => .ok (some (b, .int (wrapS w.bits n)))
+  | .uint w, .int i => .ok (some (b, .int (wrapU w.bits i)))
+  | .uint w, .byte n => .ok (some (b, .int (wrapU w.bits n)))
+  | _, _ => scalarTo F b o
 
 /-- the non-recursive converters applied to a leaf object -/
 def toLeaf (F : FOps) (m : Mode) (b : GoTy) (o : Obj) : Outcome Dyn :=
@@ -473,7 +502,11 @@ def toBase (F : FOps) (m : Mode) (b : GoTy) (o : Obj) : Outcome Dyn :=
       | .ok xs => .ok (some (.slice t, .seq xs))
       | .error => .error
       | .panic => .panic
-    | .array n t => match toArr F t n os with
+    | .array n t =>
+      -- repaired: a list longer than the array is rejected before the loop (it used to run into
+      -- reflect's index panic); a shorter list still leaves the remaining elements zero
+      if os.length > n then .error else
+      match toArr F t n os with
       | .ok xs => .ok (some (.array n t, .seq xs))
       | .error => .error
       | .panic => .panic
@@ -520,7 +553,9 @@ def toElems (F : FOps) (t : GoTy) : Objs → Outcome Vals
         | .panic => .panic
       | .error => .error
       | .panic => .panic
-/-- `ArrayConverter.To`'s loop; `n` is the remaining capacity -/
+/-- `ArrayConverter.To`'s loop; `n` is the remaining capacity.  The `panic` branch (reflect: array
+    index out of range) is what the loop does on a list longer than the array: since the repair
+    `toBase` rejects such a list before the loop (`C08_array_longer_rejected`) -/
 def toArr (F : FOps) (t : GoTy) : Nat → Objs → Outcome Vals
   | n, .nil => .ok (zeroRep n (zero t))
   | n, .cons o r =>
@@ -655,16 +690,35 @@ def callEcho (F : FOps) (pt : GoTy) (o : Obj) : Outcome (GoVal × Obj) :=
   (callArg F pt o).bind fun x => (fromGo F .get pt x).map fun res => (x, res)
 
 /-- a Go value given to a script as a global: `AsObjects` → `NewTypeConverter(reflect.TypeOf(v))`;
-    an untyped nil has no type (`reflect.TypeOf(nil).Kind()` dereferences nil) -/
+    an untyped nil becomes the script's `nil` (repaired: `reflect.TypeOf(nil)` used to be
+    dereferenced, `preFixFromGlobal`) -/
 def fromGlobal (F : FOps) (g : Option (GoTy × GoVal)) : Outcome Obj :=
+  match g with
+  | none => .ok .nil
+  | some (ty, v) => fromGo F .create ty v
+
+/-- the same through `risor.Eval(…, WithGlobal(name, v))`: `vm.Run` returns the error that
+    `applyOptions` reports for a global without a converter (repaired: it used to build the VM
+    with `vm.New`, which panics on that error, `preFixEvalGlobal`) -/
+def evalGlobal (F : FOps) (g : Option (GoTy × GoVal)) : Outcome Obj := fromGlobal F g
+
+/-! #### the repaired pieces as they were (historical; used only by the `C08_fixed_…` statements) -/
+
+/-- pre-fix `From` of the unsigned kind converters: `int64(v)` wraps at 2⁶³ -/
+def preFixScalarFrom (F : FOps) (ty : GoTy) (v : GoVal) : Outcome Obj :=
+  match ty, v with
+  | .uint _, .int i => .ok (.int (wrap64 i))
+  | _, _ => scalarFrom F ty v
+
+/-- pre-fix `AsObjects` on an untyped nil: nil-pointer dereference in `getTypeConverter` -/
+def preFixFromGlobal (F : FOps) (g : Option (GoTy × GoVal)) : Outcome Obj :=
   match g with
   | none => .panic
   | some (ty, v) => fromGo F .create ty v
 
-/-- the same through `risor.Eval(…, WithGlobal(name, v))`: `vm.New` panics on the error that
-    `applyOptions` returns for a global without a converter -/
-def evalGlobal (F : FOps) (g : Option (GoTy × GoVal)) : Outcome Obj :=
-  match fromGlobal F g with
+/-- pre-fix `vm.Run`: `vm.New` panicked on the error of `applyOptions` -/
+def preFixEvalGlobal (F : FOps) (g : Option (GoTy × GoVal)) : Outcome Obj :=
+  match preFixFromGlobal F g with
   | .error => .panic
   | r => r
 
@@ -830,31 +884,35 @@ def hasFields : Fields → Vals → Bool
   | _, _ => false
 end
 
+/-- the recorded findings.  Repaired since (and therefore no longer a guard of any theorem):
+    unsigned values ≥ 2⁶³ wrapping negative, the untyped nil global, the panic of `risor.Eval` on a
+    global without a converter, surplus method arguments, integers that do not fit the target
+    integer type (what is left of `narrowing` are the float conversions), lists longer than the
+    array (what is left of `arrayLen` are the shorter lists), declared types of a basic kind (what
+    is left of `namedType` are the declared container types). -/
 inductive Finding
-  | namedType | uintWrap | nilElem | nilCollapse | narrowing | arrayLen | structField
-  | nilArg | nilGlobal | proxyType | globalError | ptrIface | registry | surplusArgs
+  | namedType | nilElem | nilCollapse | narrowing | arrayLen | structField
+  | nilArg | proxyType | ptrIface | registry
   deriving DecidableEq, Repr
 
 def Finding.id : Finding → String
-  | .namedType => "C08-named-type-panic"
-  | .uintWrap => "C08-uint64-wraps-negative"
+  | .namedType => "C08-declared-container-type"
   | .nilElem => "C08-nil-element-panic-or-drop"
   | .nilCollapse => "C08-nil-pointer-collapse"
-  | .narrowing => "C08-lossy-narrowing"
-  | .arrayLen => "C08-array-length-unchecked"
+  | .narrowing => "C08-lossy-float-conversion"
+  | .arrayLen => "C08-array-short-list-padded"
   | .structField => "C08-struct-field-set-panics"
   | .nilArg => "C08-nil-argument-zero-value"
-  | .nilGlobal => "C08-nil-global-panic"
   | .proxyType => "C08-proxy-type-unchecked"
-  | .globalError => "C08-global-error-panics"
   | .ptrIface => "C08-pointer-to-interface-panics"
   | .registry => "C08-registry-keeps-failed-type"
-  | .surplusArgs => "C08-surplus-arguments-dropped"
 
-/-- a declared type whose underlying type is not a struct occurs (outside struct fields):
-    the kind converters assert / produce the *unnamed* type -/
+/-- a declared type whose underlying type is neither a struct nor a basic type occurs (outside
+    struct fields): a declared slice / array / map / pointer / interface type.  (Declared types of a
+    basic kind — time.Duration, `type MyInt int` — were part of this guard until `namedConverter`
+    repaired them.) -/
 def namedBad : GoTy → Bool
-  | .named _ u => !isStructKind u || namedBad u
+  | .named _ u => (!isStructKind u && !isScalarKind u) || namedBad u
   | .ptr t => namedBad t
   | .slice t => namedBad t
   | .array _ t => namedBad t
@@ -897,9 +955,6 @@ mutual
 /-- defects a Go → script → Go crossing of `v : ty` runs into (value part) -/
 def valGuards (m : Mode) (ty : GoTy) (v : GoVal) : List Finding :=
   match v with
-  | .int i => match under ty with
-    | .uint _ => if i ≥ two63 then [.uintWrap] else []
-    | _ => []
   | .ptr x => match sel m ty with
     | .pointer t => (if isNil x && nilable t then [.nilCollapse] else []) ++ valGuards .create t x
     | _ => []
@@ -971,7 +1026,7 @@ def writeGuards (F : FOps) (m : Mode) (ty : GoTy) (o : Obj) : List Finding :=
   match o with
   | .list os => match sel (baseMode m (peel ty).1) (peel ty).2 with
     | .slice t => elemWriteGuards F t os
-    | .array n t => (if os.length ≠ n then [.arrayLen] else []) ++ elemWriteGuards F t os
+    | .array n t => (if os.length < n then [.arrayLen] else []) ++ elemWriteGuards F t os
     | _ => []
   | .map _ os => match sel (baseMode m (peel ty).1) (peel ty).2 with
     | .map t => elemWriteGuards F t os
@@ -1003,9 +1058,9 @@ def callGuards (F : FOps) (pt : GoTy) (o : Obj) : List Finding :=
 
 `Proxy.call` walks the parameters with a separate index into the script's arguments.  The
 conversion phase (`To`, or `reflect.Zero` for a nil argument) runs position by position and stops
-at the first error or panic; then too few arguments are rejected ("args error"); then
-`Func.Call` panics on an invalid or wrongly typed input.  Arguments beyond the last parameter are
-never looked at. -/
+at the first error or panic; then too few arguments are rejected ("args error"), and so are too
+many (repaired: arguments beyond the last parameter used to be dropped, `preFixCallArgs`); then
+`Func.Call` panics on an invalid or wrongly typed input. -/
 
 def Fields.length : Fields → Nat
   | .nil => 0
@@ -1039,6 +1094,16 @@ def allSome : List (Option GoVal) → Option Vals
 def callArgs (F : FOps) (pts : Fields) (os : Objs) : Outcome Vals :=
   (convArgs F pts os).bind fun xs =>
     if xs.length < pts.length then .error          -- "requires %d arguments, but %d were given"
+    else if pts.length < os.length then .error     -- "takes %d arguments, but %d were given"
+    else match allSome xs with
+      | some vs => .ok vs
+      | none => .panic
+
+/-- pre-fix `Proxy.call` (historical): `len(args)` was never compared with the number of parameters
+    from above -/
+def preFixCallArgs (F : FOps) (pts : Fields) (os : Objs) : Outcome Vals :=
+  (convArgs F pts os).bind fun xs =>
+    if xs.length < pts.length then .error
     else match allSome xs with
       | some vs => .ok vs
       | none => .panic
@@ -1068,7 +1133,7 @@ def specArgs (F : FOps) (pts : Fields) (os : Objs) (res : Outcome Vals) : Bool :
 
 def callNGuards (F : FOps) : Fields → Objs → List Finding
   | .nil, .nil => []
-  | .nil, .cons _ _ => [.surplusArgs]
+  | .nil, .cons _ _ => []
   | .cons _ _, .nil => []
   | .cons pt pts, .cons o os => callGuards F pt o ++ callNGuards F pts os
 
